@@ -55,6 +55,8 @@ THIRD_ROUND_MISSES = {
 FOURTH_ROUND_MISSES = {
  "C02-10": "caught by thorough only: `resident_oriented is True` fails for a numpy bool -> in the worker processes every third construction of a library object per class (starting with the first) gets its bool arguments as numpy.bool_ (`install_flag_variation`)",
  "C03-10": "missed: valuations were small -> kind `omit_huge`: distinct int64 valuations beyond 2^53 with the ordinal profiles omitted",
+ "C03-12": "missed: ordinal profiles were always fresh `of` objects -> 40% of the Irving calls pass profiles obtained by INDEXING a profile (fancy index / slice), which must still be profiles",
+ "C12-11": "caught at ingestion, later seed-dependent -> same-shaped elections adjacent in C10-C12 as well, so that persistent profile objects are refilled between consecutive calls",
  "C04-11": "missed: as C02-10 (numpy-bool `zero_indexed`)",
  "C04-12": "missed: utilities were always a float array -> integer utilities without NaN stored as int64 / int32 / uint8 / uint16 / int8",
  "C06-10": "missed: no entries just above the routine's own 1e-9 stop threshold -> kind `tiny_scaled` (dyadic weights in units of 2^-27 .. 2^-25)",
@@ -82,6 +84,9 @@ for d in sorted(glob.glob(os.path.join(VERIF, "seeded", "C*-*"))):
     q = m["caught_by_quick"].get(p)
     a = m["caught_by_any_tier"].get(p)
     now = "quick" if q else ("thorough" if a else "MISSED")
+    others = [pp for pp, v in m["caught_by_quick"].items() if v and pp != p]
+    if not q and others:
+        now = "quick check of " + ", ".join(others) + " (not a violation of " + p + ")"
     summ = (m.get("summary") or "").replace("|", "/").replace("\n", " ")
     if len(summ) > 230:
         summ = summ[:227] + "..."
